@@ -194,4 +194,45 @@ theorem plan_step_decreases (cfg : Cfg) (hok : cfg.Ok) (metas : List Meta) (p : 
 
 example : (iterate cfgEx 1 metasEx).length = 2 ∧ measure metasEx = 4 := by decide
 
+/-! ### link between the judge and the model -/
+
+theorem enumFrom_get (k : Nat) (ms : List Meta) : ∀ d ∈ enumFrom k ms, k ≤ d.dir ∧ ms[d.dir - k]? = some d.bm := by
+  induction ms generalizing k with
+  | nil => simp [enumFrom]
+  | cons m ms ih =>
+    intro d hd
+    simp only [enumFrom, List.mem_cons] at hd
+    rcases hd with rfl | hd
+    · simp
+    · obtain ⟨h1, h2⟩ := ih (k + 1) d hd
+      refine ⟨by omega, ?_⟩
+      have : d.dir - k = (d.dir - (k + 1)) + 1 := by omega
+      rw [this, List.getElem?_cons_succ]; exact h2
+
+theorem dirsOf_of_mem (metas : List Meta) (p : List DirMeta) (h : ∀ d ∈ p, d ∈ enum metas) :
+    dirsOf metas (p.map (·.dir)) = some p := by
+  unfold dirsOf
+  induction p with
+  | nil => rfl
+  | cons d ds ih =>
+    have hd := (enumFrom_get 0 metas d (h d (by simp))).2
+    simp only [Nat.sub_zero] at hd
+    have ih' := ih (fun x hx => h x (by simp [hx]))
+    simp only [List.map_cons, List.mapM_cons, hd, Option.map_some, ih']
+    rfl
+
+/-- The judge's plan clause accepts the model's own plan (statement-as-oracle link). -/
+theorem plan_judge_ok (cfg : Cfg) (metas : List Meta) (p : List DirMeta) (hok : cfg.Ok)
+    (hwf : ∀ m ∈ metas, m.WF) (h : planMetas cfg metas = .ok p) :
+    planVerdict cfg metas (p.map (·.dir)) = none := by
+  have hwf' : ∀ d ∈ enum metas, d.bm.WF := by
+    intro d hd
+    have := (enumFrom_get 0 metas d hd).2
+    exact hwf _ (List.mem_of_getElem? this)
+  have hall := plan_allowed cfg (enum metas) p hok hwf' (enum_nodup metas) h
+  have hsub := (plan_subset cfg (enum metas) p hok (enum_nodup metas) h).1
+  unfold planVerdict
+  rw [dirsOf_of_mem metas p hsub]
+  simp [hall]
+
 end Prom.C08
